@@ -47,7 +47,7 @@ def Disc (followOk : Bool) : Call → Prop
   | .symlinkat _ dir name => 0 ≤ dir ∧ single name
   | .renameat odir oname ndir nname => 0 ≤ odir ∧ 0 ≤ ndir ∧ single oname ∧ single nname
   | .renameat2 odir oname ndir nname _ => 0 ≤ odir ∧ 0 ≤ ndir ∧ single oname ∧ single nname
-  | .dup _ _ => True
+  | .dup _ min => min = 3
   | .close _ => True
   | .dirOpen fd => 0 ≤ fd
   | .dirNext fd => 0 ≤ fd
